@@ -145,6 +145,28 @@ def appAt (s : List Step) (i : Nat) : List Fault :=
   | some (.recv _ app _) => app
   | _ => []
 
+/-! ## the initial state as a parameter
+
+What is stored before the pairing starts is arbitrary and the two places are independent:
+`service.credentials` of the configuration handed to `pyatv.pair()` and
+`settings.protocols.<p>.credentials` of the storage may each hold nothing, or (different)
+older credentials.  The handlers never read the settings slot and only ever *assign* the two
+places (the three writes of a script), so the value held afterwards is the initial one unless
+the corresponding write step was executed. -/
+
+inductive Cred | none | oldA | oldB | fresh
+  deriving DecidableEq, Repr
+
+/-- values held by (service, settings) after a run that started from `(a, b)` -/
+def credsAfter (a b : Cred) (st : St) : Cred × Cred :=
+  (if st.svc then Cred.fresh else a, if st.settings then Cred.fresh else b)
+
+def Cred.toStr : Cred → String
+  | .none => "0" | .oldA => "1" | .oldB => "2" | .fresh => "9"
+
+def Cred.ofStr? : String → Option Cred
+  | "0" => some .none | "1" => some .oldA | "2" => some .oldB | "9" => some .fresh | _ => Option.none
+
 /-! ## the PIN as a parameter
 
 The only secret a handler compares is the PIN: the device checks the SRP proof derived from the
